@@ -105,16 +105,18 @@ Definition outcome_of (v : Z) (k : hkey) (outs : list cout) (w : Z) : option (re
                        | ODeliver w' _ _ _ => w' =? w
                        | OFail w' _ => w' =? w
                        | ORefused w' => w' =? w
+                       | OCancelled w' => w' =? w
                        | _ => false end) outs with
   | Some (ODeliver _ t _ p) => Some (post_ext k (accept v (return_type k) t p))
   | Some (OFail _ e) => Some (Err e)
   | Some (ORefused _) => Some (Err (ESftp FX_NO_CONNECTION))
+  | Some (OCancelled _) => Some (Err EOther)
   | _ => None
   end.
 
 Definition chk_client (c : Z * Z * list cev * list (hkey * option Z * option (res cval)) * bool) : bool :=
   let '(v, start, evs, got, still_open) := c in
-  let '(s, outs) := c_run (mkc start 0 [] true) evs in
+  let '(s, outs) := c_run (mkc start 0 [] true []) evs in
   Bool.eqb (c_open s) still_open &&
   (Z.of_nat (length got) =? c_count s) &&
   forallb (fun iw => let '(i, (k, oid, ob)) := iw in
